@@ -222,6 +222,38 @@ func foldSeedBytes(b *[]byte, v structform.ExtVisitor) error {
 	return v.OnString(fmt.Sprintf("B%x", *b))
 }
 
+// a folder registered for an INTERFACE type: fields of that type with and without omitempty, holding a value, a pointer, nil
+type seedShape interface{ Area() int }
+type seedSquare struct{ Side int }
+
+func (s seedSquare) Area() int { return s.Side * s.Side }
+
+type seedNamedShape string
+
+func (s seedNamedShape) Area() int { return len(s) }
+
+func foldSeedShape(s *seedShape, v structform.ExtVisitor) error {
+	if *s == nil {
+		return v.OnNil()
+	}
+	return v.OnString(fmt.Sprintf("shape:%d", (*s).Area()))
+}
+
+var seedShapeCustom = map[reflect.Type]func(ptr reflect.Value) model.Value{
+	reflect.TypeOf((*seedShape)(nil)).Elem(): func(p reflect.Value) model.Value {
+		if p.IsNil() || p.Elem().IsNil() {
+			return model.NullV()
+		}
+		return model.StrV(fmt.Sprintf("shape:%d", p.Elem().Interface().(seedShape).Area()))
+	},
+}
+
+type seedShapes struct {
+	A seedShape `struct:"a"`
+	O seedShape `struct:"o,omitempty"`
+	Z int       `struct:"z"`
+}
+
 // registered folders for types whose values are "pointer shaped" (stored directly in an interface / reflect.Value word):
 // a named map, a struct made of one pointer, an array of one pointer
 type seedLabels map[string]string
@@ -397,6 +429,9 @@ func seeds() []seed {
 		{"SeedCustomHolder", []interface{}{SeedCustomHolder{C: SeedCustom{1}, P: &SeedCustom{2}, In: SeedCustom{3}}, SeedCustomHolder{}, SeedCustom{4}, &SeedCustom{5}, []SeedCustom{{6}}, map[string]*SeedCustom{"k": {7}}},
 			[]gotype.FoldOption{gotype.Folders(foldSeedCustom)}, nil},
 		{name: "SeedBuiltinFolders", vals: seedBuiltinValues(), opts: []gotype.FoldOption{gotype.Folders(foldSeedLevel, foldSeedFloat, foldSeedBytes)}, custom: seedBuiltinCustom},
+		{name: "SeedShapeFolder", vals: []interface{}{seedShapes{A: seedSquare{2}, O: seedSquare{3}}, seedShapes{A: &seedSquare{2}, O: &seedSquare{3}}, seedShapes{A: seedNamedShape("abc"), O: seedNamedShape("abcd")},
+			seedShapes{}, seedShapes{O: seedNamedShape("")}, []seedShape{seedSquare{1}, nil}, map[string]seedShape{"k": seedSquare{5}}},
+			opts: []gotype.FoldOption{gotype.Folders(foldSeedShape)}, custom: seedShapeCustom},
 		{name: "SeedShapedFolders", vals: seedShapedValues(), opts: []gotype.FoldOption{gotype.Folders(foldSeedLabels, foldSeedBox, foldSeedOne)}, custom: seedShapedCustom},
 		{"SeedBad1", []interface{}{SeedBad1{}, SeedBad1{C: make(chan int)}}, nil, nil},
 		{"SeedBadInline", []interface{}{SeedBadInline{A: 1}, SeedBadInline{A: 1, P: new(int)}, &SeedBadInline{A: 2}, []SeedBadInline{{A: 3}}}, nil, nil},
